@@ -134,6 +134,13 @@ def cases(tier, seed):
     for (m, n) in ((20, 17), (33, 33), (40, 25), (18, 18), (64, 20)):
         for zcs in ((0,), (2,), (n // 2,), (1, n // 2), (0, 5, n - 2)):
             out.append({"key": f"large-zero-cols/{m}x{n}/z={'-'.join(map(str, zcs))}", "kind": "scaled", "m": m, "n": n, "cls": "generic", "row": 0, "e": 0, "zcs": list(zcs)})
+    # the same with entries restricted to a proper subset of the four components (real, complex, single imaginary axis): fast paths for
+    # "really real / really complex" data on moderately large inputs, with and without exactly-zero columns
+    for (m, n) in ((20, 16), (16, 16), (12, 24), (33, 8), (40, 25)):
+        for mk in (1, 3, 4, 5, 8, 14):
+            for zcs in ((), (2,), (0, n // 2)):
+                out.append({"key": f"large-cmask/{m}x{n}/{G.mask_name(mk)}/z={'-'.join(map(str, zcs)) or 'none'}", "kind": "scaled", "m": m, "n": n, "cls": "generic", "row": 0, "e": 0,
+                            "zcs": list(zcs), "cmask": mk})
     for (m, n) in ((8, 2), (9, 2), (12, 3), (16, 4), (40, 4), (17, 4), (4, 16), (5, 2), (7, 3), (9, 4), (6, 2), (10, 3)):
         for nm in ("nearcol", "negzero_col", "halfdep_top", "halfdep_bot", "twodeps", "depcol1", "allneg", "nearreal", "equalmod"):
             out.append({"key": f"xf/{m}x{n}/{nm}", "kind": "xf", "m": m, "n": n, "cls": "generic", "row": 0, "xf": nm})
@@ -171,6 +178,8 @@ def run_case(case, seed):
         A = np.ldexp(base_matrix(case["cls"], m, n, fill), case["e"])
         if "zc" in case:
             A[:, case["zc"]] = 0.0
+        if case.get("cmask"):
+            A = G.apply_component_mask(A, case["cmask"])
         for zc_ in case.get("zcs", ()):
             A[:, zc_] = 0.0
     else:
@@ -224,7 +233,8 @@ def run_case(case, seed):
                 fails.append(fail("R_upper", f"max |R_ij| below diagonal = {low:.3e}", **tags))
             err = O.fro(A - O.qmatmul(Q, R))
             if err > O.budget(nA, dims=16 * max(m, n)):
-                fails.append(fail("A=QR", f"||A - QR||_F = {err:.3e} (||A||={nA:.3e})", **tags))
+                fails.append(fail("A=QR", f"||A - QR||_F = {err:.3e} (||A||={nA:.3e}, cond of the leading columns {cond_lead:.2e})",
+                                  dQ_over_cond_u=(err / (nA * cond_lead * O.U) if math.isfinite(cond_lead) else -1.0), **tags))
     if Aq.tobytes() != before:
         fails.append(fail("input_unchanged", "argument modified", **tags))
     return {
